@@ -4,6 +4,8 @@ import GlmVerif.Props.C16.T_rt_mat
 import GlmVerif.Props.C16.T_vp_mat
 import GlmVerif.Props.C16.T_rt_quat
 import GlmVerif.Props.C16.T_vp_quat
+import GlmVerif.Props.C16.T_rt_mata
+import GlmVerif.Props.C16.T_mkvec
 /-! every family table of C16 holds for the model generated from the current /repo -/
 namespace Glm.Props.C16
 open Glm Glm.Spec.C16 Glm.Gen.C16
@@ -13,5 +15,7 @@ theorem all_ok : ∀ f ∈ families, f.ok lookup = true := by
     (Family.ok_congr f_rt_mat (fun ks => by rw [show f_rt_mat.unit = "rt_mat" from rfl, lookup_rt_mat])).trans rt_mat_ok,
     (Family.ok_congr f_vp_mat (fun ks => by rw [show f_vp_mat.unit = "vp_mat" from rfl, lookup_vp_mat])).trans vp_mat_ok,
     (Family.ok_congr f_rt_quat (fun ks => by rw [show f_rt_quat.unit = "rt_quat" from rfl, lookup_rt_quat])).trans rt_quat_ok,
-    (Family.ok_congr f_vp_quat (fun ks => by rw [show f_vp_quat.unit = "vp_quat" from rfl, lookup_vp_quat])).trans vp_quat_ok⟩
+    (Family.ok_congr f_vp_quat (fun ks => by rw [show f_vp_quat.unit = "vp_quat" from rfl, lookup_vp_quat])).trans vp_quat_ok,
+    (Family.ok_congr f_rt_mata (fun ks => by rw [show f_rt_mata.unit = "rt_mata" from rfl, lookup_rt_mata])).trans rt_mata_ok,
+    (Family.ok_congr f_mkvec (fun ks => by rw [show f_mkvec.unit = "mkvec" from rfl, lookup_mkvec])).trans mkvec_ok⟩
 end Glm.Props.C16
